@@ -97,6 +97,15 @@ package scion
 //@   ensures result == nil ==> len(s.Raw) <= len(data) && s.Raw == data[:len(s.Raw)]
 //@   ensures result == nil ==> s.PathMeta.CurrINF == data[0]>>6 && s.PathMeta.CurrHF == data[0]&0x3f && s.PathMeta.SegLen[0] == l0 && s.PathMeta.SegLen[1] == l1 && s.PathMeta.SegLen[2] == l2
 
+//@ # serialization: the meta header is written back into the raw bytes first, then everything is copied
+//@ func (*Raw).SerializeTo
+//@   props C18 C21
+//@   requires !sameArray(b, s.Raw)
+//@   modifies b[:], arr(s.Raw)
+//@   ensures result == nil ==> s.Raw != nil && len(b) >= 4+8*s.NumINF+12*s.NumHops && len(s.Raw) >= 4
+//@   ensures result == nil ==> metaBytes(s.Raw, s.PathMeta) && forall j int :: 4 <= j && j < len(s.Raw) ==> s.Raw[j] == old(s.Raw[j])
+//@   ensures result == nil ==> forall j int :: 0 <= j && j < len(b) ==> b[j] == ite(j < len(s.Raw), s.Raw[j], old(b[j]))
+
 //@ func (*Raw).GetInfoField
 //@   props C19 C01
 //@   requires rawInv(s) && idx >= 0
